@@ -31,8 +31,9 @@ def correspondence(ctx):
             ctx.count(cell, N >= 2)
             ctx.bump(f"D{D}")
             ctx.bump(f"parity{N % 2}")
-            wn_impl = np.asarray(sp.build_wavenumbers(D, N)).astype(np.int64)
-            ctx.compare("build_wavenumbers vs Layout.wnFlat", wn_impl, d.ask(f"wn {D} {N}"), exact=True, cell=cell)
+            # compared as floats, exactly: a wavenumber of 11.000000000000002 is not the integer 11
+            wn_impl = np.asarray(sp.build_wavenumbers(D, N), dtype=float)
+            ctx.compare("build_wavenumbers vs Layout.wnFlat", wn_impl, np.asarray(d.ask(f"wn {D} {N}"), dtype=float), exact=True, cell=cell)
             ctx.compare("wavenumber_shape", list(sp.wavenumber_shape(D, N)), d.ask(f"wnshape {D} {N}"), exact=True, cell=cell)
             for mi, mode in enumerate(["norm_compensation", "reconstruction", "coef_extraction"]):
                 sc = np.asarray(sp.build_scaling_array(D, N, mode=mode), dtype=float)
@@ -61,6 +62,23 @@ def correspondence(ctx):
             for i in range(0, len(mb), 2):
                 mbn += [mb[i], max(mb[i + 1], mb[i])]
             ctx.compare("get_modes_slices vs Layout.modeBlocks", blocks, mbn, exact=True, cell=cell)
+    # grid sizes for which N*(1/N) != 1 in binary64 (the wavenumbers must still be exact integers)
+    for N in ([49, 98, 103] if ctx.tier == "quick" else [49, 98, 103, 107, 161, 187, 196, 197, 206, 214]):
+        for D in (1, 2):
+            if D == 2 and N > 103:
+                continue
+            wn_impl = np.asarray(sp.build_wavenumbers(D, N), dtype=float)
+            ctx.count(("layout_inexact_reciprocal", D, N), True)
+            ctx.compare("build_wavenumbers vs Layout.wnFlat (N with inexact 1/N)", wn_impl, np.asarray(d.ask(f"wn {D} {N}"), dtype=float),
+                        exact=True, cell=("layout", D, N))
+            for mi, mode in enumerate(["norm_compensation", "reconstruction", "coef_extraction"]):
+                sc = np.asarray(sp.build_scaling_array(D, N, mode=mode), dtype=float)
+                ctx.compare(f"build_scaling_array({mode}) vs Layout.scaling (N with inexact 1/N)", sc, d.ask(f"scaling {D} {N} {mi}"), exact=True)
+            c = N // 4
+            m = np.asarray(sp.low_pass_filter_mask(D, N, cutoff=c)).astype(int)
+            ctx.compare("low_pass_filter_mask vs Layout.lowPassSep (N with inexact 1/N)", m, d.ask(f"lowpass {D} {N} {c} 1 1"), exact=True, detail={"N": N})
+            m = np.asarray(sp.oddball_filter_mask(D, N)).astype(int)
+            ctx.compare("oddball_filter_mask vs Layout.oddball (N with inexact 1/N)", m, d.ask(f"oddball {D} {N}"), exact=True, detail={"N": N})
     ctx.sample({"layout_enumeration": "all N in range x D in 1..3 x ij: wavenumbers, scalings(3 modes), low-pass masks for every cutoff 0..N (both kinds), oddball mask, mode slices"})
     ctx.exhaustive = True
     # transforms: model DFT mirror vs jnp.fft on random real states and on non-Hermitian spectra
@@ -155,8 +173,45 @@ def probe_xy(D, N):
         return {"ok": False, "exception": f"{type(e).__name__}: {str(e)[:200]}"}
 
 
+def probe_masks(D, N):
+    """masks / scalings select exactly the documented modes (integer wavenumbers built independently)"""
+    import jax.numpy as jnp
+    sp = _sp()
+    axes = [np.concatenate([np.arange(0, (N - 1) // 2 + 1), np.arange(-(N // 2), 0)])] * (D - 1) + [np.arange(0, N // 2 + 1)]
+    k = np.stack(np.meshgrid(*axes, indexing="ij")).astype(float)
+    bad = []
+    if not np.array_equal(np.asarray(sp.build_wavenumbers(D, N), dtype=float), k):
+        bad.append("wavenumbers are not the exact integers")
+    for c in sorted({0, 1, N // 4, N // 3, N // 2 - 1, N // 2}):
+        if c < 0:
+            continue
+        want = np.all(np.abs(k) <= c, axis=0)
+        if not np.array_equal(np.asarray(sp.low_pass_filter_mask(D, N, cutoff=c))[0], want):
+            bad.append(f"low_pass_filter_mask(cutoff={c}) does not keep exactly |k|<={c}")
+    want = np.ones(k.shape[1:], dtype=bool) if N % 2 else np.all(np.abs(k) <= N // 2 - 1, axis=0)
+    if not np.array_equal(np.asarray(sp.oddball_filter_mask(D, N))[0], want):
+        bad.append("oddball_filter_mask does not remove exactly the Nyquist entries")
+    # amplitude of the Nyquist mode of an even grid / of a generic mode through the coefficient extraction
+    x = np.arange(N) / N
+    for kk in sorted({1, N // 3, N // 2}):
+        u = 1.7 * np.cos(2 * np.pi * kk * x)
+        if D > 1:
+            u = np.broadcast_to(u, (N,) * D)
+        co = np.asarray(sp.get_fourier_coefficients(jnp.asarray(u)[None], round=None))[0]
+        idx = (0,) * (D - 1) + (kk,)
+        if abs(abs(co[idx]) - 1.7) > 1e-9:
+            bad.append(f"amplitude of a*cos(2 pi {kk} x) read off as {abs(co[idx]):.6g} (a=1.7)")
+    return {"ok": not bad, "bad": bad}
+
+
 def oracle(ctx, deep):
     fails = []
+    for D, N in ([(1, 49), (1, 98), (2, 49), (1, 12), (2, 7)] if not deep else [(1, n) for n in (12, 13, 49, 98, 103, 107, 161, 196)] + [(2, 49), (2, 98), (3, 7)]):
+        r = probe_masks(D, N)
+        ctx.count(("oracle_masks", D, N))
+        if not r["ok"]:
+            fails.append({"key": f"C04:masks-scalings:D{D}:N={N}", "what": f"D={D}, N={N}: " + "; ".join(r["bad"])[:400],
+                          "probe": "masks", "args": {"D": D, "N": N}, "observed": r})
     rng = np.random.default_rng(ctx.seed + 3)
     sizes = {1: [4, 5, 8, 9], 2: [4, 5], 3: [4, 5]} if not deep else {1: list(range(2, 17)), 2: list(range(2, 10)), 3: [2, 3, 4, 5]}
     for D in (1, 2, 3):
@@ -193,4 +248,4 @@ def oracle(ctx, deep):
 
 
 def replay(probe, args):
-    return {"single_mode": probe_single_mode, "roundtrip": probe_roundtrip, "xy": probe_xy}[probe](**args)
+    return {"single_mode": probe_single_mode, "roundtrip": probe_roundtrip, "xy": probe_xy, "masks": probe_masks}[probe](**args)
